@@ -6,9 +6,10 @@ import pipeline
 import talgen
 
 PID = 'C07'
-PROOF_MODULES = ['ChamProofs.Props.C07', 'ChamProofs.Props.C07Once']
+PROOF_MODULES = ['ChamProofs.Props.C07', 'ChamProofs.Props.C07Once', 'ChamProofs.Props.C07Semi']
 THEOREMS = ['ChamVerif.static_fold', 'ChamVerif.C07_static_verbatim', 'ChamVerif.pyIndex_nonneg', 'ChamVerif.pyIndex_minus_one',
-            'ChamVerif.phase1_indexed', 'ChamVerif.C07_name_once']
+            'ChamVerif.phase1_indexed', 'ChamVerif.C07_name_once', 'ChamVerif.C07Semi.splitStrs_join',
+            'ChamVerif.C07Semi.splitParts_strs_eq', 'ChamVerif.C07Semi.C07_statement_list_roundtrip']
 LEVEL_TEXT = ('Proved in Lean: when nothing dynamic targets an element, prepare_attributes yields exactly its static attributes — name, value, '
               'quote, spacing, "=" — in source order, minus the language attributes (C07_static_verbatim, induction over the attribute list), '
               'and the list-index semantics the merge step relies on (pyIndex_*; the -1 case is what made D-07a lose an attribute); for every attribute list, tal:attributes list and i18n:attributes '
@@ -198,6 +199,41 @@ def make_case(rng):
     return {'src': src, 'vars': vars_, 'objs': [], 'cfg': cfg, 'impl_like': exp, 'overlap': overlap}, ideal, nontrivial
 
 
+def semi_case(rng):
+    """statement lists whose values hold semicolons — written doubled — at their start, middle and end, so that an escape
+    stands directly next to a separator or the trailing semicolon (`;;;`, `;;;;;`)"""
+    names = rng.sample(['class', 'id', 'title', 'href', 'new1', 'new2'], rng.randint(1, 3))
+    static = [(n, 's') for n in rng.sample(['class', 'id', 'lang'], rng.randint(0, 2))]
+    entries = []
+    for n in names:
+        while True:
+            v = ''.join(rng.choice('a;;b :') for _ in range(rng.randint(1, 5))).strip()
+            if v:
+                break
+        entries.append((n, v))
+    # white space before a separator belongs to the string: expression, so none is written there
+    seps = [rng.choice([';', '; ', ';  ', ';\n ']) for _ in entries[1:]]
+    stmt = ''
+    for i, (n, v) in enumerate(entries):
+        stmt += ('' if i == 0 else seps[i - 1]) + '%s string:%s' % (n, v.replace(';', ';;'))
+    stmt += rng.choice(['', '', ';', '; '])
+    src = '<a' + ''.join(' %s="%s"' % kv for kv in static) + ' tal:attributes="%s"' % stmt + '>x</a>'
+    out = []
+    idx = {}
+    for n, v in static:
+        idx[n] = len(out)
+        out.append((n, v))
+    for n, v in entries:
+        if n in idx:
+            out[idx[n]] = (n, esc(v))
+        else:
+            idx[n] = len(out)
+            out.append((n, esc(v)))
+    exp = '<a' + ''.join(' %s="%s"' % kv for kv in out) + '>x</a>'
+    adjacent = ';;;' in stmt
+    return {'src': src, 'vars': [], 'objs': [], 'cfg': {}, 'impl_like': exp, 'overlap': False}, exp, adjacent
+
+
 def spec(v):
     if v is None or isinstance(v, (bool, int)):
         return v
@@ -210,11 +246,12 @@ def correspondence(ctx):
         g = talgen.TalGen(ctx.rng, depth=ctx.rng.choice([0, 1, 2]), features={'attributes', 'interp', 'define', 'omit', 'condition', 'pipes'})
         gen.append(g.template())
     grid = [make_case(ctx.rng)[0] for _ in range(ctx.budget(1200, 40000))]
-    pipeline.run_cases(ctx, gen + grid, what='attribute rendering')
+    semi = [semi_case(ctx.rng)[0] for _ in range(ctx.budget(300, 10000))]
+    pipeline.run_cases(ctx, gen + grid + semi, what='attribute rendering')
 
 
 def oracle(ctx):
-    cases = [make_case(ctx.rng) for _ in range(ctx.budget(3000, 100000))]
+    cases = [make_case(ctx.rng) for _ in range(ctx.budget(3000, 100000))] + [semi_case(ctx.rng) for _ in range(ctx.budget(400, 20000))]
     impls = pipeline.impl_many([c[0] for c in cases])
     nt = set()
     for (case, exp, nontrivial), impl in zip(cases, impls):
